@@ -98,6 +98,14 @@ CLAIMED = {
         "design_ref": "DESIGN.md §8 C19",
         "technique": "Lean 4 theorems over the hook model and the parser fold + subprocess correspondence + independent expected-feedback oracle",
     },
+    "C15": {
+        "text": "Proof (Lean 4): (i) over a fault-schedule model of configure_logging/log_decision (each of mkdir/open/write ends ok, OSError, ValueError or other), logging never raises under any schedule of swallowed classes, hence the hook's "
+        "stdout is identical to the run where logging works or is off (log_transparent); the hypothesis is shown necessary (log_transparent_full_fails); a working sink appends exactly one entry with the documented keys and 'command' iff "
+        "log-full (one_line_per_decision, entry_keys, full_only_if_set). (ii) N processes each doing one atomic write leave a permutation of whole lines under every interleaving (concurrent_lines). Which real faults map to which exception "
+        "class, and that one entry is one write(2) on an O_APPEND descriptor, are established by running the real hook under real faults, by strace and by concurrent runs - validation, not proof.",
+        "design_ref": "DESIGN.md §8 C15",
+        "technique": "Lean 4 theorems over a fault-schedule model and an interleaving model + in-process fault-injection correspondence + real-fault subprocess differential + strace",
+    },
 }
 
 PENDING_REASON = "check not built yet in this round (DESIGN.md §10 build order); no technique other than Lean proof + correspondence is substituted"
